@@ -399,3 +399,13 @@ fn c09_backwards_seek_above_the_last_sampled_position() {
     pb.set_position(150_000);
     assert_eq!(pb.per_sec(), 0.0, "a backwards seek is reported as progress");
 }
+
+/// C13/C12: a brace that stands for itself before a line break must not make the wide element of its
+/// line count the following template lines.
+#[test]
+fn c13_wide_bar_before_brace_and_line_break() {
+    let term = InMemoryTerm::new(10, 20);
+    let pb = bar(&term, "{wide_bar}{\nab");
+    pb.tick();
+    assert_eq!(term.contents(), format!("{}{{\nab", "░".repeat(19)));
+}
